@@ -96,11 +96,12 @@ CLAIMS["C16"] = (
     "parameters of that statement unbound (deferred reset registered right after the lookup; obligations per return); unknown ids fail; "
     "handleStmtReset clears the statement; handleStmtSendLongData writes exactly one parameter slot of exactly one statement (frame "
     "obligation per store) and rejects unknown ids / out-of-range parameters; bindStmtArgs and the binary date formatters write only the "
-    "statement's args (frame verified in bit-vector mode).",
+    "statement's args (frame verified in bit-vector mode); handleStmtClose removes exactly the named statement (every other id keeps its "
+    "statement object).",
     "Assumed: handleQuery and GetRewriteSQL do not write the statement table or Stmt fields (assumed callee contracts, listed in the evidence); "
     "panic paths are not modelled (bindStmtArgs may panic on truncated values; the deferred reset runs during unwinding); the session "
-    "invariant stmtWF (len(args) == paramCount) is assumed at entry; handleStmtPrepare / handleStmtClose are not under contract, so "
-    "'statements never see each other's values' is decided per command for execute/reset/long-data only.",
+    "invariant stmtWF (len(args) == paramCount) is assumed at entry; handleStmtPrepare is not under contract, so "
+    "'statements never see each other's values' is decided per command for execute/reset/long-data/close only.",
     "DESIGN.md section 4, C16")
 
 CLAIMS["C31"] = (
@@ -189,10 +190,12 @@ CLAIMS["C35"] = (
     "IsClientIPAllowed returns true iff the allow-list is empty or some entry matches the address (loop invariant, any list length); an entry "
     "matches by containment when it was configured as a CIDR block and by address equality otherwise (IPInfo.Match, ParseIPInfo: a text that "
     "parses as CIDR becomes a block with exactly that network, else an address, else an error); parseAllowIps lists exactly the non-blank "
-    "configured entries after trimming (every entry is present, nothing else is) or rejects the whole list when one does not parse.",
-    "Trusted: net.ParseCIDR, net.ParseIP, (*net.IPNet).Contains, net.IP.Equal and strings.TrimSpace as uninterpreted functions -- prefix "
-    "matching and the IPv4 / IPv4-mapped equivalence are the standard library's and are not proved here; Session.IsAllowConnect (remote "
-    "address parsing) is not under contract.",
+    "configured entries after trimming (every entry is present, nothing else is) or rejects the whole list when one does not parse. "
+    "Session.IsAllowConnect (the connection gate) admits a client iff its namespace exists and IsClientIPAllowed admits the IP parsed from "
+    "the connection's remote address.",
+    "Trusted: net.ParseCIDR, net.ParseIP, net.SplitHostPort, the connection's RemoteAddr().String(), (*net.IPNet).Contains, net.IP.Equal "
+    "and strings.TrimSpace as uninterpreted functions -- prefix matching and the IPv4 / IPv4-mapped equivalence are the standard "
+    "library's and are not proved here.",
     "DESIGN.md section 4, C35")
 
 CLAIMS["C37"] = (
@@ -299,10 +302,13 @@ CLAIMS["C18"] = (
     "from a connection freshly taken from the slice's MASTER pool that no one else holds (precondition of the pool contract), prepared and "
     "pinned -- so every statement of the transaction on that slice gets the same master connection (getBackendNoKsConn / getBackendConn "
     "dispatch: in a transaction only through getTransactionConn); COMMIT and ROLLBACK call Commit / Rollback on every transaction "
-    "connection, return each exactly once, empty the transaction table and clear the in-transaction bit.",
+    "connection, return each exactly once, empty the transaction table and clear the in-transaction bit. handleBegin sets exactly the "
+    "in-transaction bit (no connection is taken, returned or re-pinned; on a failed backend BEGIN the status is unchanged); "
+    "handleSetAutoCommit(1) ends the implicit transaction like COMMIT (every transaction connection returned once, table emptied, "
+    "in-transaction bit cleared, autocommit bit set), handleSetAutoCommit(0) only clears the autocommit bit.",
     "Assumed: Slice.GetMasterConn / GetConn hand out a connection not handed out already (pool guarantee) and GetMasterConn one of the "
     "master; PooledConnect methods other than Recycle do not touch session state; operations of one session are sequential (txLock). NOT "
-    "under contract: handleBegin / handleSetAutoCommit (status bits), the statement dispatch in handleQuery*, ExecuteSQL(s) (goroutines), "
+    "under contract: the statement dispatch in handleQuery*, ExecuteSQL(s) (goroutines), "
     "read/write splitting inside GetConn: 'never on a replica' is decided for connections obtained through getTransactionConn only.",
     "DESIGN.md section 4, C18")
 
